@@ -1037,6 +1037,9 @@ class Interp:
 
     def instantiate(self, info, args, kwargs):
         model = self.lib.class_model(info.qualname)
+        if model is None and self.hooks.get('class:' + info.qualname) is not None:
+            model = self.hooks['class:' + info.qualname]
+            self.ctx.lib_used.add('assumed model of the constructor of %s supplied by the contract of %s' % (info.qualname, self.verifying))
         if model is not None:
             return model(self, info, *args, **kwargs)
         if info.is_exception():
